@@ -73,6 +73,23 @@ func c10Real(env *core.Env) *core.Result {
 		}
 		entries = append(entries, entry{op.Kind, md, bd.Digest})
 	}
+	// another artifact of the same repository, with one good signature of its own: what the same long-lived client
+	// and verifier are asked about after the verification under study
+	layerB, _ := world.PushBlob(ctx, inner, "application/octet-stream", []byte("c10 another artifact"))
+	subjectB, errB := world.PushManifest(ctx, inner, ocispec.Manifest{Config: cfg, Layers: []ocispec.Descriptor{layerB}})
+	var sigB []byte
+	if errB == nil {
+		inner.Tag(ctx, subjectB, subjectB.Digest.String())
+		sigB, errB = world.SignPayload(trusted, world.PayloadFor(subjectB), world.SignOpts{MediaType: world.JWS, Agent: "c10-b"})
+	}
+	if errB == nil {
+		bd, _ := world.PushBlob(ctx, inner, world.JWS, sigB)
+		_, errB = world.PushManifest(ctx, inner, ocispec.Manifest{Config: ncfg, Layers: []ocispec.Descriptor{bd}, Subject: &subjectB, Annotations: map[string]string{"n": "b"}})
+	}
+	if errB != nil {
+		res.Violate("HARNESS/setup", "", "%v", errB)
+		return res
+	}
 	// the wrapper lists in digest order, rotated
 	rotate := int(p.W("trailingEmptyPage")) + int(p.W("skipper"))
 	sort.Slice(entries, func(i, j int) bool { return entries[i].manifest.Digest < entries[j].manifest.Digest })
@@ -135,6 +152,13 @@ func c10Real(env *core.Env) *core.Result {
 	if p.W("remote") == 1 {
 		repo = registry.NewRepository(&world.RemoteLike{PagingTarget: tgt})
 	}
+	// plain: a store without a referrers API (an OCI layout, any oras GraphTarget): the client lists by walking the
+	// predecessors and fetching every manifest itself, in one page
+	plain := p.W("remote") == 0 && pageSize == 0 && p.W("trailingEmptyPage") == 0 && p.Seed%2 == 0
+	if plain {
+		repo = registry.NewRepository(tgt.Target)
+		res.Probe("store_without_a_referrers_api")
+	}
 	var (
 		gotDesc  ocispec.Descriptor
 		outcomes []*notation.VerificationOutcome
@@ -147,7 +171,27 @@ func c10Real(env *core.Env) *core.Result {
 		outcomes2 []*notation.VerificationOutcome
 		logLen    int
 	)
-	sim.Go("client", func() {
+	var (
+		askedB    bool
+		cleanB    bool
+		verrB     error
+		outcomesB []*notation.VerificationOutcome
+		descB     ocispec.Descriptor
+	)
+	var client *rt.Task
+	client = sim.Go("client", func() {
+		defer func() {
+			if !returned || p.W("skip") == 1 {
+				return
+			}
+			// whatever the verification under study ran into: the other artifact has exactly one signature, a good
+			// one, and a limit of one is enough for it
+			logN := len(tgt.FetchLog)
+			before := client.FaultsSeen
+			descB, outcomesB, verrB = notation.Verify(ctx, v, repo, notation.VerifyOptions{ArtifactReference: c10Repo + "@" + subjectB.Digest.String(), MaxSignatureAttempts: 1})
+			askedB, cleanB = true, client.FaultsSeen == before
+			tgt.FetchLog = tgt.FetchLog[:logN]
+		}()
 		gotDesc, outcomes, verr = notation.Verify(ctx, v, repo, notation.VerifyOptions{ArtifactReference: ref, MaxSignatureAttempts: N})
 		returned = true
 		logLen = len(tgt.FetchLog)
@@ -164,8 +208,20 @@ func c10Real(env *core.Env) *core.Result {
 	if !returned {
 		return res
 	}
+	if askedB && cleanB {
+		res.Probe("another_artifact_verified_afterwards_on_the_same_client")
+		keyB := fmt.Sprintf("real-stack plain=%v remote=%d faults=%v first-verdict-error=%v", plain, p.W("remote"), p.Faults, verr != nil)
+		if verrB != nil {
+			res.Violate("C10/failure-where-success-required", "the other artifact, afterwards", "the other artifact of the repository has one signature, a good one, and nothing was injected, but on the client that had just served the verification under study: %v [%s]", verrB, keyB)
+		} else if descB.Digest != subjectB.Digest || len(outcomesB) != 1 || outcomesB[0] == nil || outcomesB[0].Error != nil || digest.FromBytes(outcomesB[0].RawSignature) != digest.FromBytes(sigB) {
+			res.Violate("C10/wrong-outcome-returned", "the other artifact, afterwards", "returned %v with %d outcomes; want the other artifact's own signature [%s]", descB.Digest, len(outcomesB), keyB)
+		}
+	}
 	// plan faults (the real stack makes one manifest fetch and one blob fetch per signature: only resolve / page faults are used here)
 	fault := func(op string, nth int) bool {
+		if plain && (op == "registry.referrers" || op == "registry.page") {
+			return false // no referrers API, no pages
+		}
 		for _, f := range p.Faults {
 			if f.Op == op && f.Nth == nth {
 				return true
@@ -233,6 +289,8 @@ func c10Real(env *core.Env) *core.Result {
 	case p.W("ref") == 2:
 		expFail = "digest mismatch"
 	case fault("registry.referrers", 0):
+		expFail = "list error"
+	case plain && fault("registry.predecessors", 0):
 		expFail = "list error"
 	default:
 		res.Nontrivial = len(flat) > 0
